@@ -785,8 +785,11 @@ with PolarsImpl.impl_store.impl_manager as impl:
         return x.log10()
 
     @impl(ops.clip)
-    def _clip(x, lower, upper):
-        return x.clip(lower, upper)
+    def _clip(x, lower, upper, *, _sig):
+        if _sig[0].is_int() or _sig[0].is_float():
+            return x.clip(lower, upper)
+        # polars' clip only supports numeric types
+        return pl.when(x < lower).then(lower).when(x > upper).then(upper).otherwise(x)
 
     @impl(ops.rand)
     def _rand():
